@@ -32,7 +32,7 @@ META = {
     "max_jobs": 16,
 }
 LOG_LINE = re.compile(r"^\d{4}-\d{2}-\d{2} [\d:]+\s+\(\d+\) .*(runner aborted|runner terminated|aborted)", re.M)
-SERVICE_TAGS = {"VSvcStubborn": "asyncio", "VSvcAgain": "asyncio", "VSvcTrioDeco": "trio", "VSvcCtrl": "trio", "VSvcDeco": "asyncio", "VSvcThread": "threading", "VSvcPool": "trio", "VSvcEmpty": "trio", "VSvcWaiter": "asyncio"}
+SERVICE_TAGS = {"VSvcNew": "asyncio", "VSvcStubborn": "asyncio", "VSvcAgain": "asyncio", "VSvcTrioDeco": "trio", "VSvcCtrl": "trio", "VSvcDeco": "asyncio", "VSvcThread": "threading", "VSvcPool": "trio", "VSvcEmpty": "trio", "VSvcWaiter": "asyncio"}
 
 
 def plan(tier, seed):
@@ -52,7 +52,7 @@ def gen_pipeline(rnd):
         elif i == 0:
             cls = rnd.choice(["VSvcCtrl", "VSvcCtrl", "VSvcDeco", "VSvcThread", "VDeco", "LinearController"])
         else:
-            cls = rnd.choice(["VSvcDeco", "VSvcThread", "VDeco", "Standardiser", "Logger", "VSvcDeco", "VSvcWaiter", "VSvcTrioDeco", "VSvcAgain", "VSvcStubborn"])
+            cls = rnd.choice(["VSvcDeco", "VSvcThread", "VDeco", "Standardiser", "Logger", "VSvcDeco", "VSvcWaiter", "VSvcTrioDeco", "VSvcAgain", "VSvcStubborn", "VSvcNew"])
         kwargs = {}
         label = None
         if cls in SERVICE_TAGS:
@@ -76,7 +76,7 @@ def yaml_text(rnd, elems, logging, extra):
     lines.append("pipeline:")
     for cls, label, kwargs in elems:
         items = ", ".join("%s: %s" % (k, v) for k, v in kwargs.items())
-        if cls in ("VSvcCtrl", "VSvcDeco", "VSvcAgain", "VSvcStubborn", "VSvcTrioDeco", "VSvcThread", "VSvcPool", "VSvcEmpty", "VSvcWaiter", "VDeco", "VPool") and rnd.random() < 0.35:
+        if cls in ("VSvcCtrl", "VSvcDeco", "VSvcAgain", "VSvcStubborn", "VSvcNew", "VSvcTrioDeco", "VSvcThread", "VSvcPool", "VSvcEmpty", "VSvcWaiter", "VDeco", "VPool") and rnd.random() < 0.35:
             # the class named directly, through a namespace class, or by an alternative constructor
             name = rnd.choice(["vplug.%s", "vplug.%s", "vplug.Site.%s", "vplug.%s.build"]) % cls
             lines.append("  - {__type__: %s%s}" % (name, (", " + items) if items else ""))
@@ -90,7 +90,7 @@ def yaml_text(rnd, elems, logging, extra):
 
 
 def python_text(rnd, elems, scouts=0):
-    imports = ["from vplug import VSvcCtrl, VSvcDeco, VSvcAgain, VSvcStubborn, VSvcTrioDeco, VSvcThread, VSvcPool, VSvcEmpty, VSvcWaiter, VDeco, VPool",
+    imports = ["from vplug import VSvcCtrl, VSvcDeco, VSvcAgain, VSvcStubborn, VSvcNew, VSvcTrioDeco, VSvcThread, VSvcPool, VSvcEmpty, VSvcWaiter, VDeco, VPool",
                "from cobald.controller.linear import LinearController", "from cobald.decorator.standardiser import Standardiser",
                "from cobald.decorator.logger import Logger"]
     parts = []
@@ -359,6 +359,8 @@ def execute(case, result):
             result.count("services_checked_%s" % flavour[lb])
             if any(e[0] == "VSvcStubborn" and e[1] == lb for e in case["elems"]):
                 result.count("services_that_absorb_one_cancellation_checked")
+            if any(e[0] == "VSvcNew" and e[1] == lb for e in case["elems"]):
+                result.count("services_with_a_new_method_of_their_own_checked")
             if any(e[0] == "VSvcAgain" and e[1] == lb for e in case["elems"]):
                 result.count("services_of_a_class_decorated_twice_checked")
             if any(e[0] == "VSvcEmpty" and e[1] == lb for e in case["elems"]):
